@@ -72,6 +72,10 @@ async def _submit(d, cmd, via):
     """Hand a command to the driver directly or as a one-command sequence (both are ways in)."""
     if via == "send":
         return await d.send(cmd)
+    if via == "send-noexc":
+        # the caller asked for transparent retries instead of CommunicationError: a frame the interface
+        # cannot carry is still refused (it is not a communication problem, retrying cannot help)
+        return await d.send(cmd, exceptions=False)
 
     def seq():
         yield cmd
@@ -687,6 +691,10 @@ def cases(tier):
           # receive side with two gateways of a kind open at once: each packet decodes to the frame it denotes
           Case("luba-rx-two-gateways", _two_receivers, {"which": "luba"}),
           Case("sci-rx-two-gateways", _two_receivers, {"which": "sci"}),
+          Case("tridonic-width-noexc", h_tridonic_width, {"via": "send-noexc"}, width=128,
+               install=rigs.install_tridonic_structs),
+          Case("hasseb-width-noexc", h_hasseb_width, {"via": "send-noexc"}, width=128,
+               install=rigs.install_tridonic_structs),
           Case("luba-width-seq", h_serial_width, {"which": "luba", "via": "sequence"}, width=128),
           Case("sci-width-seq", h_serial_width, {"which": "sci", "via": "sequence"}, width=128)]
     for b1, b2, tw in ((24, 16, False), (16, 24, False), (24, 16, True), (16, 16, False)):
